@@ -107,6 +107,12 @@ def tamper(tier):
                     {'op': 'tamper_restore', 'version': conc(ver, model), 'snapshot': j2}]}
                 r['pred'] = 'ok' if conc(accepted, model) else 'err'
                 r['desc'] = 'package of %s with version=%d and content replaced by %s -> %s' % (canon(j1)[:160], conc(ver, model), canon(j2)[:160], r['pred'])
+                if nme == names[0]:
+                    # the statement is about the UNTOUCHED package: replay exactly that (no replacement of version or content)
+                    r['script']['ops'][1] = {'op': 'tamper_restore'}
+                    r['pred'] = 'ok' if conc(untouched_ok, model) else 'err'
+                    r['desc'] = 'untouched package of %s (carried aggregates visible=%d hidden=%d count=%d) -> %s' % (
+                        canon(j1)[:160], j1['visible_quantity'], j1['hidden_quantity'], j1['order_count'], r['pred'])
         out.append(r)
     return {'results': out, 'stats': cube_stats(ex, models)}
 
@@ -140,8 +146,22 @@ def run(tier, seed):
             nat = run_native(r['script'])
             run.replayed += 1
             got = ((nat.get('results') or [{}])[-1]).get('restore')
+            if got != r['pred'] and r['name'].startswith('a package built by the library') and r['script']['ops'][0].get('orders'):
+                # the public API hands PriceLevelSnapshotPackage::new a snapshot whose carried aggregates disagree with its
+                # orders only when an add races snapshot() or one id is added twice; try the second, sequential, way
+                o = r['script']['ops'][0]['orders'][0]
+                probe = {'kind': 'level', 'price': r['script']['price'], 'ops': [{'op': 'add', 'order': o}, {'op': 'add', 'order': o}, {'op': 'tamper_restore'}]}
+                nat2 = run_native(probe)
+                got2 = ((nat2.get('results') or [{}])[-1]).get('restore')
+                if got2 == r['pred']:
+                    r['script'], nat, got = probe, nat2, got2
+                    r['desc'] = 'untouched package of a level to which one id was added twice (counters 2 orders, listing 1) -> %s' % got2
             if got != r['pred']:
-                run.inconclusive_('%s: encoding predicts %s, the real crate (through serde_json and SHA-256) says %s | %s' % (r['name'], r['pred'], got, r['desc']))
+                run.inconclusive_('%s: encoding predicts %s, the real crate (through serde_json and SHA-256) says %s | %s%s' % (
+                    r['name'], r['pred'], got, r['desc'],
+                    ' | the encoding runs PriceLevelSnapshotPackage::new on a snapshot with ARBITRARY carried aggregates; the native script can only '
+                    'package a level, whose snapshot carries consistent aggregates unless an add races snapshot() or an id is added twice'
+                    if r['name'].startswith('a package built by the library') else ''))
                 continue
             run.replay_ok += 1
             if r['kind'] == 'witness':
